@@ -532,7 +532,8 @@ class CFGrid2DTopology(CFGridTopology):
         # This can occur when the grid tracks a river which might be only one cell wide.
         # The two coordinates need not be stored in the same dimension order
         coordinate = coordinate.transpose(self.y_dimension, self.x_dimension)
-        coordinate_values = coordinate.values.copy()
+        # Missing cells are marked with nan, integer coordinates can not hold that
+        coordinate_values = coordinate.values.astype(numpy.double)
         nan_coordinates = numpy.isnan(coordinate_values)
         j_pad = numpy.pad(nan_coordinates, ((1, 1), (0, 0)), constant_values=False)
         j_bound_by_nan = j_pad[:-2, :] & j_pad[2:, :]
